@@ -337,7 +337,7 @@ def ok_C19(ctx, snap):
             if i == 0:
                 continue
             last = i == len(cells) - 1
-            for (f, mx, veh, temporal) in m.get("user", []):
+            for (f, mx, veh, temporal) in [u[:4] for u in m.get("user", [])]:
                 if veh and not last:
                     continue
                 if f.startswith("level"):
